@@ -2,6 +2,8 @@
 BASELINE = "cd /repo && /venv/bin/python -m pytest -ra -q -p no:cacheprovider --timeout=900 --continue-on-collection-errors"
 
 ENGINES = [
+    {"name": "shapesym", "path": "vt/shapesym.py", "serves_properties": ["C17", "C18"],
+     "kind_free_text": "region-directed native path explorer for symbolic program builders: z3 decides branch feasibility on proxy values (vt/glue SBool/SInt), alternatives are constraint regions (robust to nondeterministic branch order), per-path solver queries, solver-proved exhaustiveness"},
     {"name": "natsym", "path": "vt/natsym.py", "serves_properties": ["C22", "C23", "C30"],
      "kind_free_text": "native execution of the real (async) Python on z3-backed proxies, exhaustive path enumeration by re-execution, z3 queries over path conditions"},
     {"name": "sqlsym", "path": "vt/sqlsym/", "serves_properties": ["C01", "C02", "C03", "C04", "C05", "C06", "C07", "C08", "C09", "C10", "C14", "C39", "C41"],
@@ -142,6 +144,9 @@ CHECKS["C14"] = dict(
 CHECKS["C23"] = dict(level="other", text="Real read_range/read_from/open_from + real GCS/S3/Azure/local _open_from and stream classes executed natively on z3-backed integers (vt/natsym); per backend/operation one z3 query 'some feasible path returns other than data[start:start+len] / UnexpectedEOFError'. Size, offsets and (GCS; S3/Azure read-to-end) lengths unbounded; block loops (_readexactly, TruncatedReadableBinaryIO, AzureReadableStream chunks) with lengths <=5/10 and <=2 solver-chosen short reads; CrossHair cross-check of the local backend (sizes <=3/5). Function-level, no transition system: 'other'.", note="Fake transports below the repo code: RFC 7233 origin server (GCS session.get, boto get_object), azure download_blob(offset,length) with 416 past EOF (taken from aioazure/fs.py's own comment/handler; SDK not installed), builtin open(); object exists and is a file; start>=0, length>=0; at/after EOF either b'' or UnexpectedEOFError accepted; blocking_to_async inline; seek outside. Two Azure known findings.", technique="native symbolic execution with z3 path exploration + CrossHair", design_ref="6/C23")
 CHECKS["C30"] = dict(level="model_checking", text="Real ci.github PR/WatchedBranch under vt/natsym. Step: try_to_merge on fully symbolic PR fields => accepted merge implies approved, no WIP/stacked label, >=1 status and all SUCCESS, batch target sha == branch sha; <=1 merge per call; no merge before refresh. History (BMC): real _update/_update_github/_update_batch/_heal/_start_build/merge against fake GitHub+batch, k events (1 PR k<=3/4, 2 PRs k<=2/3), ground-truth snapshot at every accepted merge must be approved, unlabelled, all-success on the merged head, tested on the current target, <=1 merge per update/target commit. Bounded transition-system exploration: model_checking.", note="Fakes for GitHub REST/GraphQL, batch client, DB (all authors authorised); reliable ordered webhooks; GitHub rejects merge with stale head sha and moves target on merge; _start_build shell/build.yaml stubbed; AssertionError from is_mergeable aborts that update as in the service; 2-PR step with reduced domains.", technique="native symbolic execution + bounded event-history exploration, z3 over path conditions", design_ref="6/C30")
 CHECKS["C22"] = dict(level="other", text="PARTIAL. (a) integer expressions of _copy_file_multi_part_main/_copy_part/LocalMultiPartCreate lifted from the AST each run; z3 (NIA, one div/mod, unbounded; cvc5 cross-check) proves parts [i*P,i*P+size_i) tile [0,size) exactly, per-part ranged reads are contiguous and cover the part, local part writer seeks to the source offset. (b) real Transfer/Copier/SourceCopier decision code under vt/natsym against a symbolic FS oracle (src file/dir/both/none, dest file/dir/none, dest/basename type, slashes, treat_dest_as, list source, answer delays): outcome equals the documented rule (destination path or exactly the documented error) in all 24 configuration groups. Function-level: 'other'.", note="No end-to-end byte identity through real file I/O; stream semantics (write appends from the seek offset; open_from+readexactly = C23) assumed; oracle FS models dest and dest/basename only, fixed 2-file source tree, one transfer; documented rule validated against all 324 entries of copy_test_specs.py each run; interleavings varied only through FS answer delays.", technique="AST-to-z3 lifting (NIA) + native symbolic execution with z3 path exploration", design_ref="6/C22")
+
+CHECKS["C17"] = dict(level="other", text="Real hailtop.batch DSL + LocalBackend executed natively on all pipelines of N jobs whose dependency shape (explicit/resource/both edges in either direction, self-dependencies, mention flavour, always_run call order) is chosen by solver integers and whose always_run flags and command exit statuses are z3 booleans; per explored path one z3 query decides path-condition and not(cycle => BatchException before any subprocess call, ids 1..N topological, execution in order, exact skip set, raises iff a job failed), one query per shard proves the path conditions cover the bounded space. quick: N=3 all shapes + N=4 all DAGs (explicit); thorough adds N=4 cyclic <=4 edges, N=4 all DAGs (resource), N=3 always_run-before-command, N=3 both-kind edges. 'other' because it is bounded function-level exploration, not a transition-system model.", note="subprocess in hailtop.batch.backend replaced by a recording fake (exit status = symbolic bit); bash jobs only; programs the DSL refuses while being built are counted, not violations; trusted: z3, vt/shapesym.py + vt/glue.py proxies, harness/C17_pipeline.py oracle.", technique="native symbolic path exploration (z3 branch feasibility + per-path z3 obligation + exhaustiveness query)", design_ref="6/C17")
+CHECKS["C18"] = dict(level="other", text="Real hailtop.batch DSL + ServiceBackend._async_run + aioclient.Batch (only HTTP fake) on all pipelines of N bash jobs chosen by solver integers (output kind, reads of input files/groups/earlier outputs whole or by member, fan-in, external outputs, 12 global variants incl. reverse creation order, names needing quoting, literal noise, local inputs); an independent oracle abstractly executes the submitted specs (shell word parsing, remote store, per-job local FS) and checks upload=download, consumer child of producer, byte-identical command text with references replaced by ${BATCH_TMPDIR}+shlex.quote(path), path injectivity; exhaustiveness of the explored path conditions proved by z3 per shard. quick N=3 (+small N=4), thorough N=3 full kinds/fan-in and N=4. 3 known finding classes (predicates over the shape variables), everything else would be a VIOLATION.", note="stubs: orjson(json), rich progress/track, validate_file, copy_from_dict(recorded); uid counters reset per pipeline; random tokens as drawn; bash jobs and gs:// or local inputs only; programs refused by the front end before submission are logged, not violations; trusted: z3, vt/shapesym.py, harness/C18_shell.py, harness/C18_service.py.", technique="native symbolic shape exploration (z3-driven) + abstract execution oracle", design_ref="6/C18")
 
 NOT_APPLICABLE = {
     "C37": "Scala floating-point statistics calling Apache commons-math (gamma/beta, root finding); no scalac/JVM build of "
